@@ -118,6 +118,19 @@ def gen_ms(rng, max_events=8, shuffle=None):
             events.append((ts[0], ["-eM", fmt(ts[0]), fmt(0.0)]))
             events.append((ts[1], ["-eM", fmt(ts[1]), fmt(x)]))
         events.sort(key=lambda e: e[0])
+    # timed size and growth options written with time 0 (`-en 0 i x` is not `-n i x`: it also zeroes the growth
+    # rate), after initial growth options, so that the difference is visible
+    if rng.random() < 0.25:
+        if rng.random() < 0.7:
+            args += rng.choice([["-G", fmt(rng.choice([2.0, -1.0]))], ["-g", str(rng.randint(1, npop)), fmt(rng.choice([1.5, -0.5]))]])
+        for _ in range(rng.randint(1, 2)):
+            k = rng.choice(["-en", "-en", "-eN", "-eg", "-eG"])
+            z = rng.choice(["0", "0.0"])
+            i = str(rng.randint(1, npop))
+            ev0 = {"-en": ["-en", z, i, fmt(rng.choice([0.2, 1.0, 3.0]))], "-eN": ["-eN", z, fmt(rng.choice([0.5, 1.0, 4.0]))],
+                   "-eg": ["-eg", z, i, fmt(rng.choice([0.0, 3.0, -1.0]))], "-eG": ["-eG", z, fmt(rng.choice([0.0, 1.0]))]}[k]
+            events.append((0.0, ev0))
+        events.sort(key=lambda e: e[0])
     if shuffle is None:
         shuffle = rng.random() < 0.3
     ev = [e for _, e in events]
